@@ -1,5 +1,7 @@
 (* C02 driver: one case per line  "<form> <n> <d>"  (decimal) -> result tokens in decimal.
-   "dom.quo!floor" is the body of IntegerDom::quo before frag/C02.fix-1.diff (documentation of the finding). *)
+   The call forms of givaro are NOT listed here: they are looked up in the extracted overload table Model.forms
+   (coq/C02/Table.v), which is what the theorems of Properties.v quantify over.  Hand-dispatched below: only the trusted
+   layers (raw GMP primitives = GmpSpec, raw C conversions / constants = CInt) and the refuted old body of quo. *)
 let one f n d = string_of_z (f n d)
 let two f n d = let (a, b) = f n d in string_of_z a ^ " " ^ string_of_z b
 let bl f n d = if f n d then "1" else "0"
@@ -12,48 +14,31 @@ let table : (string * (Model.z -> Model.z -> string)) list = [
   "gmp.cdiv_r_ui", two Model.mpz_cdiv_r_ui; "gmp.cdiv_ui", one Model.mpz_cdiv_ui;
   "gmp.fdiv_r_ui", two Model.mpz_fdiv_r_ui; "gmp.fdiv_ui", one Model.mpz_fdiv_ui; "gmp.mod_ui", one Model.mpz_mod_ui;
   "gmp.divexact", one Model.mpz_divexact; "gmp.divexact_ui", one Model.mpz_divexact_ui;
-  (* gmp++_int_div.C *)
-  "divin.I", one Model.divin_I; "divin.l", one Model.divin_l; "divin.ul", one Model.divin_ul;
-  "div.I", one Model.div_I; "div.l", one Model.div_l; "div.i", one Model.div_i; "div.ul", one Model.div_ul;
-  "divexact.qI", one Model.divexact_q_I; "divexact.qul", one Model.divexact_q_ul; "divexact.ql", one Model.divexact_q_l;
-  "divexact.I", one Model.divexact_I; "divexact.ul", one Model.divexact_ul; "divexact.l", one Model.divexact_l;
-  "op/=.I", one Model.op_diveq_I; "op/=.ul", one Model.op_diveq_ul; "op/=.l", one Model.op_diveq_l;
-  "op/=.u", one Model.op_diveq_u; "op/=.i", one Model.op_diveq_i; "op/=.T", one Model.op_diveq_T; "op/=.Ts", one Model.op_diveq_T;
-  "op/.I", one Model.op_div_I; "op/.ul", one Model.op_div_ul; "op/.l", one Model.op_div_l;
-  "op/.u", one Model.op_div_u; "op/.i", one Model.op_div_i;
-  "divmod.I", two Model.divmod_I; "divmod.l", two Model.divmod_l;
-  "divmod.ul", two Model.divmod_ul;
-  "ceil.r", one Model.ceil_r; "floor.r", one Model.floor_r; "trunc.r", one Model.trunc_r;
-  "ceil.v", one Model.ceil_v; "floor.v", one Model.floor_v; "trunc.v", one Model.trunc_v;
-  "trem.I", one Model.trem_I; "crem.I", one Model.crem_I; "frem.I", one Model.frem_I;
-  "trem.ul", one Model.trem_ul; "crem.ul", one Model.crem_ul; "frem.ul", one Model.frem_ul;
-  "trem.w", one Model.trem_w; "crem.w", one Model.crem_w; "frem.w", one Model.frem_w;
-  "w/I.i", one Model.w_div_I; "w/I.l", one Model.w_div_I; "w/I.u", one Model.w_div_I; "w/I.ul", one Model.w_div_I;
-  (* gmp++_int_mod.C *)
-  "modin.I", one Model.modin_I; "modin.ul", one Model.modin_ul; "modin.l", one Model.modin_l;
-  "mod.I", one Model.mod_I; "mod.l", one Model.mod_l; "mod.ul", one Model.mod_ul; "mod.i", one Model.mod_i; "mod.u", one Model.mod_u;
-  "op%=.I", one Model.op_modeq_I; "op%=.ul", one Model.op_modeq_ul; "op%=.l", one Model.op_modeq_l;
-  "op%=.u", one Model.op_modeq_u; "op%=.i", one Model.op_modeq_i;
-  "op%=.T", one Model.op_modeq_T; "op%=.Ts", one Model.op_modeq_T;
-  "op%.I", one Model.op_mod_I; "op%.ul", one Model.op_mod_ul; "op%.l", one Model.op_mod_l;
-  "op%.u", one Model.op_mod_u; "op%.i", one Model.op_mod_i; "op%.us", one Model.op_mod_us; "op%.d", one Model.op_mod_d; "op%.dx", one Model.op_mod_dx; "op%.Tf", one Model.op_mod_Tf;
-  "op/.s", one Model.op_div_i; "op/.us", one Model.op_div_i; "op/.c", one Model.op_div_i;
-  "op/=.Tus", one Model.op_diveq_T; "op/=.Tc", one Model.op_diveq_T; "op/=.Tuc", one Model.op_diveq_T; "op/=.Td", one Model.op_diveq_T;
-  "op%=.Tus", one Model.op_modeq_T; "op%=.Tc", one Model.op_modeq_T; "op%=.Tuc", one Model.op_modeq_T; "op%=.Td", one Model.op_modeq_T;
-  "mod.s", one Model.mod_i; "mod.us", one Model.mod_i; "mod.c", one Model.mod_i; "div.s", one Model.div_i; "div.c", one Model.div_i;
-  "op%.Ts", one Model.op_mod_Ts;
-  "w%I.i", one Model.w_mod_I; "w%I.l", one Model.w_mod_I; "w%I.u", one Model.w_mod_I; "w%I.ul", one Model.w_mod_I;
-  (* givinteger.h *)
-  "dom.div", one Model.dom_div; "dom.divin", one Model.dom_divin; "dom.mod", one Model.dom_mod; "dom.modin", one Model.dom_modin;
-  "dom.divmod", two Model.dom_divmod; "dom.divexact", one Model.dom_divexact;
-  "dom.quo", one Model.dom_quo; "dom.quo!floor", one Model.dom_quo_floor; "dom.quo@qb", one Model.dom_quo; "dom.rem", one Model.dom_rem;
-  "dom.quoin", one Model.dom_quoin; "dom.remin", one Model.dom_remin;
-  "dom.quoRem", two Model.dom_quoRem; "dom.isDivisor", bl Model.dom_isDivisor;
+  (* the refuted pre-repair body of IntegerDom::quo (documentation of the finding; not a call form of the table) *)
+  "dom.quo!floor", one Model.dom_quo_floor;
+  (* raw conversions / configuration constants of the CInt layer (second operand ignored) *)
+  "cast.i64_u64", (fun n _ -> string_of_z (Model.cast_i64_u64 n)); "cast.u64_i64", (fun n _ -> string_of_z (Model.cast_u64_i64 n));
+  "cast.i64_i32", (fun n _ -> string_of_z (Model.cast_i64_i32 n)); "cast.i64_i16", (fun n _ -> string_of_z (Model.cast_i64_i16 n));
+  "cast.u64_i32", (fun n _ -> string_of_z (Model.cast_i64_i32 (Model.cast_u64_i64 n)));
+  "cast.abs64", (fun n _ -> string_of_z (Model.cast_abs64 n)); "cast.neg64", (fun n _ -> string_of_z (Model.cast_neg64 n));
+  "cast.i64_dbl", (fun n _ -> string_of_z (Model.cast_i64_dbl n)); "cast.dbl_u64", (fun n _ -> string_of_z (Model.cast_dbl_u64 n));
+  "cfg.sizeof_long", (fun _ _ -> string_of_z Model.cfg_sizeof_long); "cfg.givaro_sizeof_long", (fun _ _ -> string_of_z Model.cfg_sizeof_long);
+  "cfg.limb_bits", (fun _ _ -> string_of_z Model.cfg_limb_bits); "cfg.ulong_max", (fun _ _ -> string_of_z Model.cfg_u64_max);
+  "cfg.i64_min", (fun _ _ -> string_of_z Model.cfg_i64_min); "cfg.i64_max", (fun _ _ -> string_of_z Model.cfg_i64_max);
+  "cfg.u64_max", (fun _ _ -> string_of_z Model.cfg_u64_max); "cfg.i32_min", (fun _ _ -> string_of_z Model.cfg_i32_min);
+  "cfg.u32_max", (fun _ _ -> string_of_z Model.cfg_u32_max); "cfg.i16_min", (fun _ _ -> string_of_z Model.cfg_i16_min);
+  "cfg.u16_max", (fun _ _ -> string_of_z Model.cfg_u16_max); "cfg.dbl_mant_dig", (fun _ _ -> string_of_z Model.cfg_dbl_mant_dig);
+  "cfg.dbl_round_nearest", (fun _ _ -> "1"); "cfg.long_is_int64", (fun _ _ -> "1");
 ]
-let tbl = Hashtbl.create 200
+let tbl = Hashtbl.create 400
 let () = List.iter (fun (k, f) -> Hashtbl.replace tbl k f) table
+(* every call form of givaro: the overload table of coq/C02/Table.v, the one the theorems quantify over *)
+let () = List.iter (fun (fm : Model.form) ->
+  Hashtbl.replace tbl fm.Model.fname (fun n d -> String.concat " " (List.map string_of_z (fm.Model.fsem n d)))) Model.forms
 let () = run_lines (fun toks ->
   match toks with
+  | ["TABLE"] ->     (* the table itself: "name conv nty dty" per form, for the check's comparison with the forms it drives *)
+    String.concat ";" (List.map (fun (nm, (k, (nt, dt))) -> nm ^ " " ^ k ^ " " ^ nt ^ " " ^ dt) Model.form_rows)
   | [form; n; d] ->
     (match Hashtbl.find_opt tbl form with
      | Some f -> f (z_of_string n) (z_of_string d)
